@@ -104,7 +104,7 @@ def gen_case(prng: Prng, tier: str, i: int) -> dict:
 
 
 def gen_cases(tier: str, verif_seed: int, runs: int | None = None) -> list[dict]:
-    n = runs if runs is not None else (56 if tier == "quick" else 840)
+    n = runs if runs is not None else (56 if tier == "quick" else 3500)
     return [gen_case(Prng(mix(verif_seed, PROP, i)), tier, i) for i in range(n)]
 
 
